@@ -108,13 +108,13 @@ func (s *Server) rejectPrivateAndLoopbackIPAction(_ context.Context, in egress.I
 		isWellKnownIPv4LocalDomainName := false
 		isWellKnownIPv6LocalDomainName := false
 		for _, d := range wellKnownIPv4LocalDomainNames {
-			if domainName == d {
+			if strings.EqualFold(domainName, d) {
 				isWellKnownIPv4LocalDomainName = true
 				break
 			}
 		}
 		for _, d := range wellKnownIPv6LocalDomainNames {
-			if domainName == d {
+			if strings.EqualFold(domainName, d) {
 				isWellKnownIPv6LocalDomainName = true
 				break
 			}
@@ -129,9 +129,17 @@ func (s *Server) rejectPrivateAndLoopbackIPAction(_ context.Context, in egress.I
 			}
 		}
 	} else if len(ip) == 0 {
-		return egress.Action{
-			Action: appctlpb.EgressAction_DIRECT,
+		if req.Command != constant.Socks5ConnectCmd {
+			return egress.Action{
+				Action: appctlpb.EgressAction_DIRECT,
+			}
 		}
+		// Connecting to an empty host name reaches the local host.
+		ip = net.ParseIP("127.0.0.1")
+	}
+	if ip.IsUnspecified() && req.Command == constant.Socks5ConnectCmd {
+		// Connecting to 0.0.0.0 or :: reaches the local host.
+		ip = net.ParseIP("127.0.0.1")
 	}
 
 	if !ip.IsPrivate() && !ip.IsLoopback() {
